@@ -123,7 +123,7 @@ static void source_case(const Cfg& cfg, const std::vector<Use>& uses, const std:
       try { b->h->evalArguments(av.argc(), av.argv()); } catch (const std::exception& e) { o.kind = 1; o.what = e.what(); } catch (...) { o.kind = 2; o.what = "non-std exception"; }
       o.snap = snapshot(cfg, b->slots);
    }
-   ++g_evals; ++g_splits; vf::heartbeat();
+   ++g_evals; ++g_splits; vf::heartbeat(); vf::outcome(o.kind ? "rejected: " + o.what.substr(0, 60) : "accepted " + snap_text(o.snap).substr(0, 80));
    std::string srcs; for (int s : src) srcs += "APFE"[s]; if (nest) srcs += nest == 1 ? "(F via E)" : "(F via P)";
    bool override_case = false; for (size_t i = 0; i < uses.size(); ++i) for (size_t j = 0; j < uses.size(); ++j) if (i != j && uses[i].arg == uses[j].arg && src[i] != ARGV && src[j] == ARGV) override_case = true;
    if (override_case) ++g_overrides;
